@@ -11,8 +11,9 @@ import z3
 
 from .sym import PI_AXIOMS, str_distinct_axioms
 
+CURRENT_LABEL = ""
 RLIMIT_FEAS = int(os.environ.get("PYVC_RLIMIT_FEAS", "2000000"))
-RLIMIT_PROVE = int(os.environ.get("PYVC_RLIMIT_PROVE", "60000000"))
+RLIMIT_PROVE = int(os.environ.get("PYVC_RLIMIT_PROVE", "8000000"))
 TIMEOUT_MS = int(os.environ.get("PYVC_TIMEOUT_MS", "20000"))
 FALLBACK_S = int(os.environ.get("PYVC_FALLBACK_S", "10"))
 
@@ -30,7 +31,8 @@ class Verdict:
 def _mk_solver(rlimit, timeout_ms):
     s = z3.Solver()
     s.set("rlimit", rlimit)
-    s.set("timeout", timeout_ms)
+    if timeout_ms:
+        s.set("timeout", timeout_ms)
     return s
 
 
@@ -40,11 +42,17 @@ def base_axioms():
 
 def feasible(pc, extra=()) -> bool:
     """May pc /\\ extra hold?  `unknown` counts as feasible (sound: the path is explored)."""
-    s = _mk_solver(RLIMIT_FEAS, 1500)
+    s = _mk_solver(RLIMIT_FEAS, 0)  # resource limit only: the verdict must not depend on machine load
     s.add(*base_axioms())
     s.add(*pc)
     s.add(*extra)
-    return s.check() != z3.unsat
+    t0 = time.time()
+    r = s.check()
+    if os.environ.get("PYVC_TRACE_SLOW") and time.time() - t0 > 3:
+        import sys
+
+        print(f"[slow feasible {time.time() - t0:.1f}s {r} pc={len(pc)} pid={os.getpid()}]", file=sys.stderr, flush=True)
+    return r != z3.unsat
 
 
 def _external(smt2: str, cmd: list[str], timeout_s: int) -> str:
@@ -99,6 +107,10 @@ def prove(assumptions, goal, *, want_model=True, fallbacks=True, generic_inputs=
     s.add(*assumptions)
     s.add(z3.Not(goal))
     r = s.check()
+    if os.environ.get("PYVC_TRACE_SLOW") and time.time() - t0 > 3:
+        import sys
+
+        print(f"[slow prove {time.time() - t0:.1f}s {r} {CURRENT_LABEL} facts={len(assumptions)} pid={os.getpid()}]", file=sys.stderr, flush=True)
     tried = ["z3-" + z3.get_version_string()]
     if r == z3.unsat:
         return Verdict("proved", tried[0], time.time() - t0, tried=tried)
